@@ -76,7 +76,8 @@ PLAN = {
             seq("str", "shared", "from an Arc<str>", "content in {'', 'a'}; all 16 two-step sequences", "thorough", "_all", 900),
             seq("slice", "borrowed", "from a borrowed slice", "0 or 1 element; all 16 two-step sequences", "thorough", "_all", 900),
             seq("slice", "owned", "from an owned Vec", "0 or 1 element; all 16 two-step sequences", "thorough", "_all", 900),
-            seq("slice", "shared", "from an Arc<[T]>", "0 or 1 element; all 16 two-step sequences", "thorough", "_all", 900),
+            seq("slice", "shared", "from an Arc<[T]>", "1 element; all 16 two-step sequences", "thorough", "_all", 900),
+            seq("slice", "shared", "from an Arc<[T]>", "0 elements; all 16 two-step sequences", "thorough", "_empty", 900),
             seq("str", "borrowed", "from a borrow", "content 'a\\u00e9'; all 64 three-step sequences", "thorough", "_3ops", 900),
             seq("str", "owned", "from an owned String", "content 'a\\u00e9'; all 64 three-step sequences", "thorough", "_3ops", 900),
             seq("str", "shared", "from an Arc<str>", "content 'a\\u00e9'; all 64 three-step sequences", "thorough", "_3ops", 900),
